@@ -93,20 +93,17 @@ theorem C03_hash_chain (H : FHash → Hdr → Hdr) (s0 : St) (h0 : Inv H s0) (op
   (inv_run H ops s0 h0).chain
 
 /-- (b) entries are appended only as hash-chain successors of the current tip:
-one operation either leaves a prefix of the store (rollback), or appends
-`H f₁ tip, H f₂ (H f₁ tip), …` for a batch of filter hashes `f₁ f₂ …` whose
-`PrevFilterHeader` is the current tip -/
-theorem C03_hash_chain_step (H : FHash → Hdr → Hdr) (ff : Bool) (s : St) (op : Op) :
-    (step H ff s op).1.fstore <+: s.fstore ∨
-    ∃ prev hashes, s.fstore.getLast? = some prev ∧
-      (step H ff s op).1.fstore = s.fstore ++ chainFrom H prev hashes := by
+one operation — including a whole checkpointed fetch with any arrival order,
+duplicates and the first-interval re-basing, and `resolveConflict` — either
+leaves a prefix of the store (rollback), or grows it by appending, one after
+the other, batches `H f₁ tip, H f₂ (H f₁ tip), …` each started at the
+then-current tip (`Grows`) -/
+theorem C03_hash_chain_step (H : FHash → Hdr → Hdr) (ff : Bool) (s : St) (hi : Inv H s) (op : Op) :
+    (step H ff s op).1.fstore <+: s.fstore ∨ Grows H s.fstore (step H ff s op).1.fstore := by
   cases op with
   | ext ids => exact Or.inl (List.prefix_refl _)
   | rb h => exact Or.inl (rollbackLoop_fstore_prefix ff h _ s)
-  | wr prev stop hashes =>
-    rcases writeMsg_fstore H s prev stop hashes with h | ⟨h1, h2⟩
-    · left; show (writeMsg H s prev stop hashes).1.fstore <+: s.fstore; rw [h]; exact List.prefix_refl _
-    · exact Or.inr ⟨prev, hashes, h1, h2⟩
+  | wr prev stop hashes => exact Or.inr (grows_writeMsg H s prev stop hashes)
   | tip net =>
     obtain ⟨s2, a, _, _, h⟩ := tipRound_shape H s net
     show (tipRound H s net).1.fstore <+: s.fstore ∨ _
@@ -115,10 +112,15 @@ theorem C03_hash_chain_step (H : FHash → Hdr → Hdr) (ff : Bool) (s : St) (op
     · rcases commitPick_fstore H s2 net.pick hs2 with c | ⟨pm, _, c1, c2⟩
       · left; rw [h, c, a]; exact List.prefix_refl _
       · right
-        refine ⟨pm.2.prev, pm.2.hashes, ?_, ?_⟩
-        · rw [← a]; exact c1
-        · show (tipRound H s net).1.fstore = _
-          rw [h, c2, a]
+        show Grows H s.fstore (tipRound H s net).1.fstore
+        rw [h, c2, a]
+        exact Grows.step pm.2.prev pm.2.hashes (Grows.refl _) (by rw [← a]; exact c1)
+  | resolve interval hard net cp =>
+    left
+    show (resolveConflict interval hard s net cp).1.fstore <+: s.fstore
+    rw [(resolveConflict_frame interval hard s net cp).1]
+    exact List.prefix_refl _
+  | cp interval cps evs => exact Or.inr (cpRound_ok H interval s cps evs hi).2
 
 example : (step (fun f p => 100 * p + f) true { blocks := [0, 1, 2], fstore := [1], fblk := [0] }
     (.wr 1 2 [7, 8])).1.fstore = [1, 107, 10708] := by decide
@@ -151,6 +153,54 @@ theorem C03_checkpoints (interval : Nat) (hard : Nat → Option Hdr) (s : St) (c
 
 example : (hardPass 1000 (fun h => if h = 1000 then some 5 else none) genesis
     [(1, [5, 9]), (2, [6, 9])]).2 = [(1, [5, 9])] := by decide
+
+/-- (c) on the checkpointed path: a batch that passed `verifyCheckpoint` and
+is written as it came (every batch but the re-based first one) ends exactly at
+the agreed checkpoint, which — by `C03_checkpoints` — agrees with every
+hard-coded checkpoint -/
+theorem C03_checkpoint_batches (H : FHash → Hdr → Hdr) (s : St) (prevCp nextCp prev : Hdr) (stop : Blk)
+    (hashes : List FHash) (last : Hdr) (e : Nat)
+    (hv : verifyCp H prevCp nextCp prev hashes = true)
+    (hw : writeMsg H s prev stop hashes = ((writeMsg H s prev stop hashes).1, .ok last e)) :
+    last = nextCp ∧ (writeMsg H s prev stop hashes).1.fstore.getLast? = some nextCp := by
+  unfold verifyCp at hv
+  simp only [Bool.and_eq_true, beq_iff_eq] at hv
+  rcases writeMsg_cases' H s prev stop hashes with ⟨o, ho, hno⟩ | ⟨e', hl, hn0, heq⟩
+  · rw [ho] at hw
+    have := (Prod.mk.inj hw).2
+    exact absurd this (hno last e)
+  · have h2 : (writeMsg H s prev stop hashes).2 = .ok last e := by rw [hw]
+    rw [heq] at h2
+    simp only [WOut.ok.injEq] at h2
+    have hlast : last = nextCp := by rw [← h2.1]; exact hv.2
+    refine ⟨hlast, ?_⟩
+    rw [heq]
+    simp only
+    have hne : chainFrom H prev hashes ≠ [] := by
+      intro h0
+      have := congrArg List.length h0
+      rw [chainFrom_length] at this
+      exact hn0 this
+    rw [List.getLast?_append]
+    cases hc : (chainFrom H prev hashes).getLast? with
+    | none => exact absurd (List.getLast?_eq_none_iff.mp hc) hne
+    | some x =>
+      have := hv.2
+      rw [hc] at this
+      simp only [Option.getD_some] at this
+      rw [this]; rfl
+
+/-- (c) is FALSE on the at-tip path (finding `tip-path-skips-hardcoded-checkpoint`):
+`getUncheckpointedCFHeaders` never consults the hard-coded filter-header
+checkpoints.  Block 1 has the true filter hash 7, the hard-coded checkpoint at
+height 1 is `H 7 genesis = 107`; the only peer answers with the self-consistent
+false hash 8 — `108` is committed. -/
+theorem C03_checkpoints_tip_counterexample :
+    let s : St := { blocks := [0, 1], fstore := [1], fblk := [0] }
+    let net : Net := { peers := [1], resps := fun _ => [⟨true, 1, [8]⟩], served := fun _ _ => some 8,
+                       verify := fun _ _ => .bad, getBlock := fun _ => true, pick := 0 }
+    (tipRound (fun f p => 100 * p + f) s net).1.fstore = [1, 108] ∧
+    checkpointsObs [(1, 107)] (tipRound (fun f p => 100 * p + f) s net).1.fstore = false := by decide
 
 /-! ### (d) honest wins -/
 
